@@ -11,7 +11,7 @@
    DESIGN.md C01 Layer C).  Outside the fragment the property is decided per explored program by the extracted
    specs on the real compiler's binary (tools/c01.py): translation validation. *)
 From Coq Require Import ZArith List String Lia.
-From HexVerif Require Import WMap Isa XAst XSem XSemProps XCodegenExpr AsmSpec AsmSpecProofs XCodegenBridge.
+From HexVerif Require Import WMap Isa XAst XSem XSemProps XCodegenIsa XCodegenInv XCodegenExpr AsmSpec AsmSpecProofs XCodegenBridge.
 Import ListNotations.
 Local Open Scope Z_scope.
 
@@ -57,61 +57,79 @@ Theorem C01_run_deterministic : forall p inp o1 o2, run p inp = o1 -> run p inp 
 Proof. exact run_deterministic. Qed.
 Print Assumptions C01_run_deterministic.
 
-(* (4) PARTIAL (the fragment of Layer C that is proved): expressions built from numbers, global variables, + and -,
-   nested to any depth on both sides, including xcmp's folding of constant subtrees and its spilling of right
-   operands that need areg into frame temporaries.  `cg addr size nslots e RA off` is the model of
-   ExprCodeGen/genBinopOperands/genConst/genVar (with the lowering of frame-base relative operands) for this
-   fragment; tools/c01.py ties it to the real xcmp by comparing the extracted cg with the instructions of the
-   real compiler's listing on generated expressions.
-   If the X spec evaluates e to n, then the generated code, placed anywhere (code_at: the ISA's own reading of
-   the bytes, in every memory that differs from the initial one in frame temporaries only), run on Isa.step from
-   its first byte with a clear operand register, emits no event, ends just behind the code with areg = n mod 2^32,
-   and has changed memory only in temporaries at frame offsets >= off.
-   Hypotheses on the frame: mem[1] = sp; the nslots temporaries sp+size-nslots .. sp+size-1 lie inside memory and
-   are neither word 1 nor a global variable's word.
-   Missing for C01_full: locals/formals (frame addressing of variables), relational/logical operators, statements,
-   calls, arrays and strings; that size/nslots are what xcmp's Frame computes; and the layout of whole programs
-   (that the assembled image holds exactly `cg`'s instructions at consecutive positions: C05's model). *)
+(* (4) PARTIAL (the part of Layer C that is proved for expressions).  Input: an expression in the form the code
+   generator reads it (after constant propagation and the operator rewrites: XConstProp.front, property C07).
+   Fragment: literals (operand-encoded or from the constant pool), global variables, locals and value formals
+   (frame words sp + k), + and - nested to any depth on both sides (right operands that need areg are spilled to
+   frame temporaries), = and < (with xcmp's special cases for a literal zero, under XSem's "no comparison-difference
+   overflow" -- XSem answers CmpDiffOverflow otherwise, so there is no evaluation to speak of), ~, and / or (short
+   circuit) -- with the generated labels and BRZ/BRN/BR as the assembler receives them.
+   `cg venv pool size nslots e RA n off` is the model of ExprCodeGen / genBinopOperands / genConst / genVar and of
+   the lowering of frame-base relative operands; tools/c01.py ties it to the real xcmp by comparing the extracted
+   cg with the real compiler's listing on generated expressions.
+   If the X spec evaluates e to z in a state whose variables the memory mr holds (vars_ok), the generated code,
+   placed anywhere (code_at: the ISA's own reading of the bytes, in every memory in which the protected words P --
+   code and constant pool -- are intact; labels at their positions), run on Isa.step from its first byte with a
+   clear operand register, emits no event, ends just behind the code with areg = z mod 2^32, and has changed
+   memory only in temporaries at frame offsets >= off.
+   Hypotheses on the layout: mem[1] = sp; the temporaries (frame offsets off0 .. nslots-1, i.e. words
+   sp+size-nslots .. sp+size-1-off0) lie inside memory, are not protected, are not word 1, and no variable lives
+   in them; pool entries are protected words holding their constant.
+   Missing for C01_full at the expression level: calls, system calls, subscripts and strings. *)
 Theorem C01_expr_fragment_partial :
-  forall (addr : string -> option Z) (ge : genv) (m0 : WMap.t) (sp size nslots : Z),
-    rd m0 1 = sp ->
-    ~ T sp size nslots 1 ->
-    0 <= tlo sp size nslots /\ thi sp size < MEMW ->
-    (forall x a, addr x = Some a -> ~ T sp size nslots a) ->
-    forall (e : expr) (off : Z) (code : list instr),
-    cg addr size nslots e RA off = Some code -> 0 <= off ->
-    forall (f : nat) (st : state) (n : Z) (s : state),
-    eval f ge e st = Ret (Vint n) s ->
-    env_ok addr ge m0 st ->
+  forall (venv : string -> option loc) (pool : Z -> option Z) (size nslots : Z) (ge : genv) (P : Z -> Prop)
+         (m0 : WMap.t) (lab : label -> Z) (sp off0 : Z) (mr : WMap.t),
+    C P m0 mr ->
+    rd mr 1 = sp ->
+    0 <= tlo size nslots sp /\ fb size sp - off0 < MEMW ->
+    (forall a, T size nslots sp off0 a -> ~ P a) ->
+    ~ T size nslots sp off0 1 ->
+    (forall v a, pool v = Some a -> P a /\ in_mem a = true /\ rd m0 a = v mod W) ->
+    (forall x a, venv x = Some (LGlobal a) -> in_mem a = true /\ ~ T size nslots sp off0 a) ->
+    (forall x k, venv x = Some (LFrame k) -> in_mem (sp + k) = true /\ ~ T size nslots sp off0 (sp + k)) ->
+    forall (e : expr) (n : label) (off : Z) (code : list instr) (n' : label),
+    cg venv pool size nslots e RA n off = Some (code, n') -> off0 <= off ->
+    forall (f : nat) (st : state) (z : Z) (s : state),
+    eval f ge e st = Ret (Vint z) s ->
+    vars_ok venv ge sp mr st ->
     forall (pos nxt a b : Z) (inp : inputs),
-    code_at (C m0 sp size nslots) pos code nxt -> nxt < W ->
+    code_at (C P m0) lab pos code nxt -> 0 <= pos -> nxt < W ->
     exists (k : nat) (s' : arch),
-      Isa.run k (mk pos a b 0 m0) inp [] = ([], inp, s', Cut) /\
-      pc s' = nxt /\ areg s' = n mod W /\ oreg s' = 0 /\ keeps sp size nslots off m0 (mem s').
+      Isa.run k (mk pos a b 0 mr) inp [] = ([], inp, s', Cut) /\
+      pc s' = nxt /\ areg s' = z mod W /\ oreg s' = 0 /\ keeps size nslots sp off mr (mem s').
 Proof. exact expr_fragment. Qed.
 Print Assumptions C01_expr_fragment_partial.
 
 (* (5) the hypothesis code_at of (4) is what the assembler side delivers: where the ISA's own decoder reads
-   instruction i in an image that every admissible memory holds, instr_at holds (per instruction; code_at
-   chains them). *)
-Theorem C01_instr_at_of_decode : forall (C : WMap.t -> Prop) img pos nxt i,
-  decode img pos = Some (fst (opcode i), snd (opcode i), nxt) ->
-  0 <= pos -> nxt <= W -> (forall m, C m -> holds m img pos nxt) -> instr_at C pos nxt i.
+   instruction i (for a branch: with its label's position relative to the next instruction as operand) in an image
+   that every admissible memory holds, instr_at holds (per instruction; code_at chains them). *)
+Theorem C01_instr_at_of_decode : forall (C : WMap.t -> Prop) (lab : label -> Z) img pos nxt i,
+  match i with LABEL _ => False | _ => True end ->
+  decode img pos = Some (opc i, operand lab nxt i, nxt) ->
+  0 <= pos -> nxt <= W -> (forall m, C m -> holds m img pos nxt) -> instr_at C lab pos nxt i.
 Proof. exact instr_at_of_decode. Qed.
 Print Assumptions C01_instr_at_of_decode.
 
-(* the fragment is not empty: the model generates xcmp's code for (g + 3) - (2 + 5) ... *)
+(* the fragment is not empty: the model generates xcmp's code for (g + 3) - 7 with a global g ... *)
 Example C01_fragment_nonvacuous :
-  cg (fun x => if String.eqb x "g" then Some 2 else None) 6 4
-     (EBin Minus (EBin Plus (EVar "g") (ENum 3)) (EBin Plus (ENum 2) (ENum 5))) RA 0
-  = Some [LDAM 2; LDBC 3; ADD; LDBC 7; SUB].
+  cg (fun x => if String.eqb x "g" then Some (LGlobal 2) else None) (fun _ => None) 6 4
+     (EBin Minus (EBin Plus (EVar "g") (ENum 3)) (ENum 7)) RA 0 0
+  = Some ([LDAM 2; LDBC 3; ADD; LDBC 7; SUB], 0).
 Proof. vm_compute. reflexivity. Qed.
 
-(* ... and the spill scheme for g - (g + 1): right operand first, saved at sp + size - 1, reloaded into breg *)
+(* ... the spill scheme for l - (l + 1) with a local l at sp + 5: right operand first, saved at frame offset 1 ... *)
 Example C01_fragment_spill_nonvacuous :
-  cg (fun x => if String.eqb x "g" then Some 2 else None) 6 4
-     (EBin Minus (EVar "g") (EBin Plus (EVar "g") (ENum 1))) RA 0
-  = Some [LDAM 2; LDBC 1; ADD; LDBM 1; STAI 5; LDAM 2; LDBM 1; LDBI 5; SUB].
+  cg (fun x => if String.eqb x "l" then Some (LFrame 5) else None) (fun _ => None) 6 4
+     (EBin Minus (EVar "l") (EBin Plus (EVar "l") (ENum 1))) RA 0 1
+  = Some ([LDAM 1; LDAI 5; LDBC 1; ADD; LDBM 1; STAI 4; LDAM 1; LDAI 5; LDBM 1; LDBI 4; SUB], 0).
+Proof. vm_compute. reflexivity. Qed.
+
+(* ... and the branches of ~(g < 0) and l with labels 0..3 *)
+Example C01_fragment_branch_nonvacuous :
+  cg (fun x => if String.eqb x "g" then Some (LGlobal 2) else if String.eqb x "l" then Some (LFrame 5) else None) (fun _ => None) 6 4
+     (EBin And (EUn Not (EBin Ls (EVar "g") (ENum 0))) (EVar "l")) RA 0 1
+  = Some ([LDAM 2; BRN 3; LDAC 0; BR 4; LABEL 3; LDAC 1; LABEL 4; BRZ 1; LDAC 0; BR 2; LABEL 1; LDAC 1; LABEL 2;
+           BRZ 0; LDAM 1; LDAI 5; LABEL 0], 5).
 Proof. vm_compute. reflexivity. Qed.
 
 (* Non-vacuity: a program with a global, a function call in an operand and output is well-defined, and the
